@@ -272,7 +272,7 @@ func reportProperty(ps *PropSpec, res *PropResult, tier string, seed int, t0 tim
 		rf := &ReplayFile{Property: id, Obligation: o.Name, Kind: o.Kind, Function: o.Fn, Position: o.Pos, Status: o.Result.Status,
 			Solvers: o.Result.All, SolverOut: firstLines(o.Result.Output, 60)}
 		nofail := true
-		if o.Result.Status == "sat" {
+		if o.Result.Status == "sat" || o.Relaxed {
 			rf.Model = parseValues(o.Result.Output)
 			rr := tryReplay(o, rf.Model, repo, res.Workdir)
 			rf.Replay = rr
